@@ -2,4 +2,6 @@
 def pairs():
     P = lambda n, e, f: dict(name=n, entry=e, harness="harness/span_queue.c", enforce=f, replace=[], config="SCALED", label="P", unwind=14, functions=[f.split("/")[0]], timeout=300)
     return [P("sq_push", "h_sq_push", "mi_span_queue_push/c_sq_push_spec"), P("sq_delete", "h_sq_delete", "mi_span_queue_delete/c_sq_delete_spec"),
-            P("sq_delete_absent", "h_sq_delete_absent", "mi_span_queue_delete/c_sq_delete_absent_spec")]
+            P("sq_delete_absent", "h_sq_delete_absent", "mi_span_queue_delete/c_sq_delete_absent_spec"),
+            dict(P("span_remove", "h_span_remove", "mi_segment_span_remove_from_queue/c_span_remove_spec"), replace=["mi_span_queue_delete/c_sq_delete_rec2"],
+                 functions=["mi_segment_span_remove_from_queue", "mi_span_queue_for", "mi_slice_bin"])]
